@@ -115,6 +115,12 @@ type frame struct {
 	resT string
 	ret  TypeSpec   // type of the single result
 	res  []TypeSpec // function with effects: the types of its results
+	void bool       // function with effects and without results: it returns `()`
+}
+
+// unitRet is `return` in a function without results.
+func unitRet() *Node {
+	return &Node{Op: "ret", Args: []*Node{{Op: "var", Name: "()", K: KOpq, T: "Unit"}}}
 }
 
 type env struct {
@@ -449,13 +455,21 @@ func (t *tr) target(tg *Target) (*Def, error) {
 	}
 
 	if t.eff {
-		if fd.Type.Results == nil {
-			return nil, t.pkg.errorf(fd.Pos(), "%s returns nothing", goName)
-		}
-
 		var lean []string
 
-		for _, f := range fd.Type.Results.List {
+		var results []*ast.Field
+		if fd.Type.Results != nil {
+			results = fd.Type.Results.List
+		}
+
+		if len(results) == 0 {
+			// a function without results returns `()`: what it does is what its effectful calls do to the context
+			en.fr.void = true
+			en.fr.res = []TypeSpec{{K: KOpq, T: "Unit"}}
+			lean = []string{"Unit"}
+		}
+
+		for _, f := range results {
 			ts, ok := t.goType(f.Type, file)
 			if !ok || len(f.Names) > 0 {
 				return nil, t.pkg.errorf(f.Pos(), "result type %s is not supported", Text(f.Type))
@@ -467,7 +481,12 @@ func (t *tr) target(tg *Target) (*Def, error) {
 
 		d.ResType = t.fam.Monad + " (" + strings.Join(lean, " × ") + ")"
 
-		body, err := t.stmts(fd.Body.List, en.push(), nil, fd.Body.End())
+		var end cont
+		if en.fr.void {
+			end = func(*env) (*Node, error) { return unitRet(), nil }
+		}
+
+		body, err := t.stmts(fd.Body.List, en.push(), end, fd.Body.End())
 		if err != nil {
 			return nil, err
 		}
